@@ -13,6 +13,7 @@
  * zones are the guard zones for buf, dyn and the VLA lbuf.
  */
 #include "common.h"
+#include <unistd.h>
 #include <stdarg.h>
 
 static int fail_next_realloc;
@@ -73,6 +74,7 @@ int main(int argc, char **argv)
 	if (!f) { perror(argv[1]); return 2; }
 	setvbuf(stdout, NULL, _IOLBF, 0);
 	while ((line = verif_getline(f))) {
+		alarm(5);	/* a case takes milliseconds; a spinning library is killed by SIGALRM */
 		char *save = NULL, *tok;
 		size_t bufsz;
 		kdump_errmsg_t *err;
